@@ -73,6 +73,10 @@ type ClientInfo struct {
 	Security    []string
 	Logs        []string
 	Crashed     bool
+	// FatalSecurity: the SecurityError callback ends the process (what a real program typically does);
+	// otherwise it only records the message and the client goes on.
+	FatalSecurity bool
+	Exited        bool
 	// Tainted is set when any fault fired on a seam call of this client.
 	Tainted bool
 	// TaintedFiles: remote paths / cache files whose delivery was faulted.
@@ -386,10 +390,20 @@ func (o *ops) Log(msg string) {
 
 func (o *ops) SecurityError(msg string) {
 	o.w.Mu.Lock()
-	defer o.w.Mu.Unlock()
 	o.c.Security = append(o.c.Security, msg)
 	o.w.Res.Probes["SecurityError-called"]++
 	o.w.Res.Logf("c%d SecurityError (%d bytes)", o.c.ID, len(msg))
+	fatal := o.c.FatalSecurity
+	if fatal {
+		o.c.Exited = true
+		o.c.Crashed = true
+		o.w.Res.Logf("c%d process exits in its security callback", o.c.ID)
+		o.w.Res.Probes["process-exit-in-security-callback"]++
+	}
+	o.w.Mu.Unlock()
+	if fatal {
+		sched.ExitGroup(o.c.Group)
+	}
 }
 
 // SortedKeys returns the sorted keys of a map.
